@@ -16,7 +16,7 @@ CHECKS = {
                     '(double vote, surround; unsigned 64-bit) with all earlier releases of the key. Sampling, not proof: '
                     'held on the N generated histories reported in evidence.'),
         level_note='Trusts herumi BLS, badger and the Go runtime; 4 fixed keys; histories up to 40 steps; oracle is independent of the watermark rule.',
-        parts=[part('TestC01', 160, 2500, qshards=2)],
+        parts=[part('TestC01', 600, 6000, qshards=2)],
         rule=('rapid-generated histories (1-40 steps: single/batch attestation requests, proposals as noise, restarts; '
               'epochs from a collision-prone mixture incl. >=2^63) run against a real signer stack (real BLS, real badger); '
               'a case is non-trivial iff at least one request conflicted (double vote / surround, by the pairwise oracle) '
@@ -33,7 +33,7 @@ CHECKS = {
                     'range) over the real signer stack; oracle: released slots per key strictly increase in release order and the '
                     'export never falls below a released slot. Sampling, not proof.'),
         level_note='Trusts herumi BLS, badger and the Go runtime; 4 fixed keys; histories up to 40 steps.',
-        parts=[part('TestC02', 220, 3000, qshards=2)],
+        parts=[part('TestC02', 700, 6000, qshards=2)],
         rule=('rapid-generated histories (1-40 steps: proposal requests by name/key via service or gRPC handler, '
               'attestations as noise, restarts; slots from a collision-prone mixture incl. >=2^63); non-trivial iff '
               'at least one proposal request was at or below a slot already released for that key'),
@@ -69,13 +69,29 @@ CHECKS['C09'] = dict(
                 'every relation to the watermark goes as one call to one twin and entry by entry to the other: verdicts and stored state must agree. '
                 '(c) util.Scatter(n) for n in 1..5000 x GOMAXPROCS 1..64 must hand out disjoint consecutive non-empty extents covering [0,n).'),
     level_note='Trusts herumi BLS and badger; reading of the statement: position-by-position equality is checked for mixed batches too (DESIGN C09).',
-    parts=[part('TestC09Live', 250, 2000), part('TestC09Diff', 150, 1200), part('TestC09Scatter', 3000, 20000, tshards=4)],
+    parts=[part('TestC09Live', 700, 5000), part('TestC09Diff', 400, 2500), part('TestC09Scatter', 5000, 30000, tshards=4)],
     rule=('three generators: (a) model-relative advancing histories, non-trivial iff the history has an equal-source step and a restart or a batch; '
           '(b) twin differential batches, non-trivial iff the batch contains both an approved and a denied position; (c) Scatter(n, GOMAXPROCS), '
           'non-trivial iff n is not divisible by GOMAXPROCS; distinct = sha256 of the case JSON'),
     essential=['live:equal-source', 'live:genesis-0/0', 'live:near-2^63', 'live:has-restart', 'live:has-batch', 'diff:mixed-verdict-batch',
                'diff:batch-larger-than-gomaxprocs', 'diff:batch>=100', 'scatter:n-not-divisible', 'scatter:n<gomaxprocs'],
     assumptions=['herumi BLS verification is trusted', 'epochs below 2^63 as the statement says'],
+)
+
+CHECKS['C05'] = dict(
+    pkg='c05', level='exploration',
+    technique='property-based testing: generated (domain-prefix class, endpoint, admin-IP list, source address) vs. the decision table of the statement',
+    level_text=('Generated requests over all five signing endpoints (service and gRPC handler with wire round trip), domains from every 4-byte type '
+                'class incl. near misses and odd lengths, admin-IP lists (none/one/many incl. IPv6) and source addresses (absent/listed/unlisted): generic '
+                'endpoints must never sign attester/proposer domains (position by position), may sign exit domains only from a listed address; the '
+                'attestation/proposal endpoints must refuse every foreign domain and leave the stored record of that key unchanged.'),
+    level_note='Only the stated direction is asserted for exits (signed => listed address); textual normalisation of addresses is not generated (statement is silent).',
+    parts=[part('TestC05', 1500, 15000, qshards=2)],
+    rule=('rapid-generated single calls; a case is non-trivial iff some position carries an attester/proposer/exit domain on a generic endpoint or a foreign '
+          'domain on a protected endpoint; distinct = sha256 of the case JSON'),
+    essential=['endpoint-sign', 'endpoint-multisign', 'endpoint-attest', 'endpoint-attests', 'endpoint-propose', 'exit-from-listed-ip-signed',
+               'exit-refused', 'other-generic-domain-signed', 'right-domain-on-protected-endpoint-signed', 'domain-length-not-32'],
+    assumptions=['requests are otherwise valid (authorised client, unlocked accounts, 32-byte data)'],
 )
 
 ENGINES = [
